@@ -49,6 +49,11 @@ func main() {
 		code := runProperty(*prop, "quick", *repo, *verif, "", true, false, v.Obligation.Key)
 		os.Exit(code)
 	}
+	if *prop == "dbg-e2" {
+		p, _ := loadProg(*repo, "", false)
+		dbgMapRanges(p)
+		return
+	}
 	if *prop == "" {
 		fmt.Println("usage: hclverif -property Cxx [-tier quick|thorough]")
 		os.Exit(2)
